@@ -7,6 +7,8 @@ CONSTANTS
  Alphabet <- MCAlphabet
  K = 2
 INVARIANT C03_UserFault
+INVARIANT C03_CtorFault
+INVARIANT C03_Construction
 INVARIANT C03_ListenerFault
 INVARIANT C03_PausePlayFault
 INVARIANT C03_NoHalf
